@@ -1,2 +1,73 @@
-(* C01 — statements are added as the proofs land; placeholder so the build has the file *)
-From Verif Require Import Base.Bytes Store.Model.
+(* C01 — newest point wins, whatever the delivery order or batching.
+   Statements only; proofs in Store/ProofsRows.v and Store/ProofsTop.v.
+   [lookup rows t k]: what a read returns for identity (type t, key k with "" = "0");
+   [newer acc p]: p replaces acc iff acc's time <= p's time;
+   [accepted_node st ops id]: the node points of the acknowledged requests for id, in delivery order. *)
+From Coq Require Import Permutation.
+From Verif Require Import Base.Bytes Store.GraphCount Store.GraphWalk Store.Model Store.ProofsRows Store.ProofsHash Store.ProofsTop.
+From Verif Require Import Properties.StoreExample.
+Local Open Scope N_scope.
+
+(* for every history of requests (any targets, batch partition, duplicates, re-deliveries, refused
+   requests in between) a read of identity (t,k) of node id is the fold of [newer] over the accepted
+   points of that identity: all fields of the winning point, key normalised *)
+Theorem C01_newest_wins_node :
+  forall ops st id t k, nodes_ok st ->
+    lookup (node_rows (s_nodes (run st ops)) id) t k =
+    fold_left newer (sel t k (map normp (accepted_node st ops id))) (lookup (node_rows (s_nodes st) id) t k).
+Proof. exact newest_wins_node. Qed.
+Print Assumptions C01_newest_wins_node.
+
+(* the same for one edge-point request on an existing edge (node type points are not stored) *)
+Theorem C01_edge_write :
+  forall st id par pts st' e, par <> [] -> keys_norm (e_pts e) ->
+    find_edge (s_edges st) par id = Some e -> edge_points st id par pts = Ok st' ->
+    exists e', In e' (s_edges st') /\ e_id e' = e_id e /\ e_up e' = par /\ e_down e' = id /\
+               e_pts e' = batch_rows true (e_pts e) pts.
+Proof. exact edge_points_rows_existing. Qed.
+Print Assumptions C01_edge_write.
+
+Theorem C01_batch_lookup :
+  forall skip db pts t k, keys_norm db ->
+    lookup (batch_rows skip db pts) t k = fold_left newer (sel t k (map normp (eff skip pts))) (lookup db t k).
+Proof. exact batch_rows_lookup. Qed.
+Print Assumptions C01_batch_lookup.
+
+(* that fold is THE point with the greatest timestamp *)
+Theorem C01_fold_is_max :
+  forall l a, match fold_left newer l (Some a) with Some m => is_max (a :: l) m | None => False end.
+Proof. exact fold_newer_max. Qed.
+Print Assumptions C01_fold_is_max.
+
+Theorem C01_max_unique :
+  forall l m1 m2, distinct_times l -> is_max l m1 -> is_max l m2 -> m1 = m2.
+Proof. exact max_unique. Qed.
+Print Assumptions C01_max_unique.
+
+(* hence independent of order, grouping and duplication of the deliveries *)
+Theorem C01_history_independent :
+  forall ps ps' t k, Permutation ps ps' -> distinct_times (sel t k (map normp ps)) ->
+    fold_left newer (sel t k (map normp ps)) None = fold_left newer (sel t k (map normp ps')) None.
+Proof. exact history_independent. Qed.
+Print Assumptions C01_history_independent.
+
+(* no second point for an identity, in every reachable state *)
+Theorem C01_unique :
+  forall ops st, nodes_ok st -> nodes_ok (run st ops).
+Proof. exact run_nodes_ok. Qed.
+Print Assumptions C01_unique.
+
+(* a point older than the one held never changes what is read *)
+Theorem C01_stale_ignored :
+  forall rows p q t k, keys_norm rows -> lookup rows t k = Some q -> is_id t k p = true ->
+    (p_time p < p_time q)%Z -> lookup (batch_rows false rows [p]) t k = Some q.
+Proof. exact stale_ignored. Qed.
+Print Assumptions C01_stale_ignored.
+
+(* non-vacuity: in the example history node c receives ("value","")@20, ("value","0")@10 in one
+   batch and later the stale ("value","")@15; the read returns the point written at 20 *)
+Example C01_example :
+  nodes_ok st0 /\
+  option_map (fun p => (p_key p, p_time p, p_val p)) (lookup (node_rows (s_nodes ex_st) id_c) t_value []) =
+  Some (str_0, 20%Z, 0x4000000000000000).
+Proof. split; [exact nodes_ok_st0|vm_compute; reflexivity]. Qed.
